@@ -87,7 +87,8 @@ def history_campaign(pid, seed, runs, jobs=8):
             os.remove(f)
         os.makedirs(os.path.join(core.REPLAYS, pid), exist_ok=True)
         prefix = os.path.join(core.REPLAYS, pid, f"fuzz-history-{k}-")
-        cmd = [b, f"-runs={runs}", f"-seed={(seed if seed else 1) * 100 + k}", "-max_len=640", "-timeout=30", "-rss_limit_mb=3000", f"-artifact_prefix={prefix}", "-print_final_stats=1", corpus]
+        # bounded by executions and by wall-clock (whichever comes first; running out of time only means fewer histories)
+        cmd = [b, f"-runs={runs}", "-max_total_time=1800", f"-seed={(seed if seed else 1) * 100 + k}", "-max_len=640", "-timeout=30", "-rss_limit_mb=3000", f"-artifact_prefix={prefix}", "-print_final_stats=1", corpus]
         rc, log, wall = core.run(cmd, env={"ASAN_OPTIONS": "detect_leaks=1", "UBSAN_OPTIONS": "print_stacktrace=1:halt_on_error=1"}, timeout=6 * 3600)
         m = re.search(r"stat::number_of_executed_units:\s*(\d+)", log)
         cov = re.findall(r"cov: (\d+)", log)
